@@ -13,3 +13,5 @@ import Cutadapt.Properties.C19
 #print axioms Cutadapt.C19.deinterleave_interleave
 #print axioms Cutadapt.C19.interleave_unzip
 #print axioms Cutadapt.C19.interleave_length
+#print axioms Cutadapt.C19.outputFormat_eq_formatOfName
+#print axioms Cutadapt.C19.generated_output_formats
